@@ -33,7 +33,8 @@ from pymbolic.mapper.dependency import DependencyMapper
 from pymbolic.mapper.evaluator import EvaluationMapper as EvaluationMapperBase
 from pymbolic.mapper.stringifier import PREC_LOGICAL_OR
 from pymbolic.mapper.unifier import UnidirectionalUnifier
-from pymbolic.parser import Parser, _greater, _identifier, _less
+from pymbolic.parser import (
+    _PREC_COMMA, _PREC_IF, Parser, _else, _greater, _identifier, _if, _less)
 from pymbolic.primitives import If as IfThenElse, Variable, is_constant  # noqa
 
 
@@ -417,6 +418,22 @@ class _ExtendedParser(Parser):
             return primitives.Variable(identifier)
         else:
             return super().parse_terminal(pstate)
+
+    def parse_postfix(self, pstate, min_precedence, left_exp):
+        if pstate.next_tag() is _if and min_precedence < _PREC_IF:
+            # THEN if CONDITION else ELSE: The base class lets the 'else'
+            # branch extend over a following comma, so that
+            # "f(a if c else b, d)" became a call with the one argument
+            # "a if c else (b, d)". The branch ends where an argument ends.
+            pstate.advance()
+            pstate.expect_not_end()
+            condition = self.parse_expression(pstate, _PREC_IF)
+            pstate.expect(_else)
+            pstate.advance()
+            else_expr = self.parse_expression(pstate, _PREC_COMMA)
+            return IfThenElse(condition, left_exp, else_expr), True
+
+        return super().parse_postfix(pstate, min_precedence, left_exp)
 
     lex_table = _hack_lex_table(Parser.lex_table)
 
